@@ -156,7 +156,23 @@ func (g *G) modifiers() string {
 	return s
 }
 
-func (g *G) Selector() string { return g.metric() + g.matchers() + g.modifiers() }
+// nameAndMatchers: mostly name{matchers}; sometimes a selector without a metric name or with a
+// regex on it, so that dropping the name can make distinct series collide.
+func (g *G) nameAndMatchers() string {
+	if len(g.P.Metrics) == 0 && g.R.Intn(25) == 0 {
+		switch g.R.Intn(3) {
+		case 0:
+			return fmt.Sprintf(`{%s="%s"}`, g.oneOf(LabelKeys...), g.oneOf(LabelVals...))
+		case 1:
+			return `{__name__=~"m1|m2"}`
+		case 2:
+			return fmt.Sprintf(`{__name__=~"m.*",%s!="%s"}`, g.oneOf(LabelKeys...), g.oneOf(LabelVals...))
+		}
+	}
+	return g.metric() + g.matchers()
+}
+
+func (g *G) Selector() string { return g.nameAndMatchers() + g.modifiers() }
 
 var RangeFns = []string{"rate", "increase", "delta", "irate", "idelta", "deriv", "changes", "resets",
 	"sum_over_time", "max_over_time", "min_over_time", "avg_over_time", "stddev_over_time", "stdvar_over_time",
@@ -188,7 +204,7 @@ func (g *G) rangeMs() int64 {
 
 func (g *G) RangeFn() string {
 	f := RangeFns[g.R.Intn(len(RangeFns))]
-	return fmt.Sprintf("%s(%s%s[%s]%s)", f, g.metric(), g.matchers(), dur(g.rangeMs()), g.modifiers())
+	return fmt.Sprintf("%s(%s[%s]%s)", f, g.nameAndMatchers(), dur(g.rangeMs()), g.modifiers())
 }
 
 func (g *G) grouping() string {
